@@ -11,9 +11,11 @@
 (*          called right after the SetState / ImportBlock of the event               *)
 (* Roots and key-value sets arrive as small integers, equal integers meaning equal   *)
 (* digests within the scenario.  The driver runs the call sequence on a fresh node   *)
-(* (run A), runs it again without the calls run A rejected (run B: the node that     *)
-(* never saw the rejected blocks) and once more in full (run C: a second fresh       *)
-(* node).  The three runs pass through the same keys (acc, request), so              *)
+(* (run A), then again and again on fresh nodes, each time without the first call    *)
+(* the previous run rejected (runs B1, B2, ...: the nodes that never saw that        *)
+(* rejected block), and once more in full (run C: a second fresh node).  Which runs  *)
+(* are made is test selection only: the invariant must hold over any set of runs.    *)
+(* The runs pass through the same keys (acc, request), so                            *)
 (*   - a rejection that changed what GetState returns for a committed header,        *)
 (*   - a later import (the same block again, a sibling, a child, an orphan) whose    *)
 (*     verdict or state root differs from the node that never saw the rejected block,*)
